@@ -340,6 +340,23 @@ def input_gradients(ctx, rng):
                             ctx.fail(f"generic-path/d-{nm}/{fam}/{mode}",
                                      f"{fam} ({mode}, grad required on {req}): d(Σ go·k)/d{nm} is {g.tolist()}, the dense formula "
                                      f"gives {r_.tolist()}", payload)
+                    # closed forms PROVED in Props/C19 (`rbf_spec_input_gradient`, `matern_spec_input_gradient`):
+                    # ∂k_ij/∂x1[i,c] = G_ij·(x1[i,c] − x2[j,c])/ℓ_c²,  G = −k | −3e^{−√3r} | −(5/3)(1+√5r)e^{−√5r}
+                    if fam in ("rbf", "matern3", "matern5"):
+                        A, Bm = np.array(x1), np.array(x2)
+                        lv = np.array(ls if ard else ls * d)
+                        dif = (A[:, None, :] - Bm[None, :, :]) / lv ** 2            # (n1, n2, d)
+                        r_ = np.sqrt((((A[:, None, :] - Bm[None, :, :]) / lv) ** 2).sum(-1))
+                        G = {"rbf": -np.exp(-0.5 * r_ ** 2), "matern3": -3.0 * np.exp(-math.sqrt(3) * r_),
+                             "matern5": -(5.0 / 3.0) * (1 + math.sqrt(5) * r_) * np.exp(-math.sqrt(5) * r_)}[fam]
+                        W = go.numpy() * G * (osc if with_scale else 1.0)
+                        cf = {"x1": (W[:, :, None] * dif).sum(1), "x2": -(W[:, :, None] * dif).sum(0)}
+                        ctx.count("input_grad_closed_form")
+                        for nm, g in zip([t for t in ("x1", "x2") if req in (t, "both")], gs):
+                            if not np.allclose(g.numpy(), cf[nm], rtol=1e-6, atol=1e-7 * sc):
+                                ctx.fail(f"generic-path/d-{nm}/{fam}/{mode}/closed-form",
+                                         f"{fam} ({mode}, grad required on {req}): d(Σ go·k)/d{nm} is {g.tolist()}, the proved "
+                                         f"closed form G·(x1−x2)/ℓ² gives {cf[nm].tolist()}", payload)
 
 
 # ------------------------------------------------------------------------------------------- in-place histories
@@ -381,7 +398,8 @@ def output_inplace(ctx, rng, deep=False):
             if _inplace_refused(e):
                 ctx.count("inplace_refused_by_autograd")
                 return
-            raise
+            ctx.fail(key + "/raises", f"{what}: raises {type(e).__name__}: {str(e)[:300]}", payload)
+            return
         ctx.count("inplace_gradient_compared")
         sc = max([1.0] + [float(np.abs(r).max()) for r in ref if r.size])
         for g, r in zip(got, ref):
@@ -808,8 +826,14 @@ def natural(ctx, rng, q):
                 Cm = Dg.unsqueeze(-1) * torch.linalg.inv(torch.linalg.cholesky(Sig))   # lower, C^T C = Sigma^{-1}
                 a2 = nat_mean.clone().requires_grad_(True)
                 c2 = Cm.clone().requires_grad_(True)
-                m2, L2 = _TrilNaturalToMuVarSqrt.apply(a2, c2)
-                t1, t2 = torch.autograd.grad([m2, L2], [a2, c2], grad_outputs=[gmu, gL])
+                try:
+                    m2, L2 = _TrilNaturalToMuVarSqrt.apply(a2, c2)
+                    t1, t2 = torch.autograd.grad([m2, L2], [a2, c2], grad_outputs=[gmu, gL])
+                except Exception as e:
+                    ctx.case({"tril-raises": [n, batch, rep, signs]}, sample=None)
+                    ctx.fail("_TrilNaturalToMuVarSqrt/raises", f"_TrilNaturalToMuVarSqrt forward/backward raises {type(e).__name__}: "
+                             f"{str(e)[:300]}", dict(desc, tril_diagonal_signs=Dg.tolist()))
+                    continue
                 # reference: explicit map (eta1, eta2) -> (eta1, chol(eta2 - eta1 eta1^T)·D)
                 e1 = mu.clone().requires_grad_(True)
                 e2 = (Sig + mu.unsqueeze(-1) @ mu.unsqueeze(-2)).clone().requires_grad_(True)
@@ -966,7 +990,7 @@ def ciq(ctx, rng, q):
     import gpytorch
     from gpytorch.variational.ciq_variational_strategy import _NgdInterpTerms
     reps = 10 if ctx.quick else 100
-    work, xwork = [], []
+    work, xwork, swork = [], [], []
     for rep in range(reps):
         batch = rng.choice([None, 2, 3])
         B = batch or 1
@@ -990,11 +1014,19 @@ def ciq(ctx, rng, q):
         it = kk.clone().requires_grad_(True)
         nv = nat_vec.clone().requires_grad_(True)
         nm = nat_mat.clone().requires_grad_(True)
-        with gpytorch.settings.cg_tolerance(1e-13), gpytorch.settings.eval_cg_tolerance(1e-13), \
-                gpytorch.settings.max_cg_iterations(200), warnings.catch_warnings():
-            warnings.simplefilter("ignore")
-            im, iv, kl = _NgdInterpTerms.apply(it, nv, nm)
-            g_it, g_nv, g_nm = torch.autograd.grad([im, iv, kl], [it, nv, nm], grad_outputs=[gm, gv, gk])
+        try:
+            with gpytorch.settings.cg_tolerance(1e-13), gpytorch.settings.eval_cg_tolerance(1e-13), \
+                    gpytorch.settings.max_cg_iterations(200), warnings.catch_warnings():
+                warnings.simplefilter("ignore")
+                im, iv, kl = _NgdInterpTerms.apply(it, nv, nm)
+                g_it, g_nv, g_nm = torch.autograd.grad([im, iv, kl], [it, nv, nm], grad_outputs=[gm, gv, gk])
+        except Exception as e:                     # the real code refuses a legal input: a concrete failure
+            ctx.case({"ciq-raises": [n, nb, batch, rep]}, sample=None)
+            ctx.fail("_NgdInterpTerms/raises", f"_NgdInterpTerms forward/backward raises {type(e).__name__}: {str(e)[:300]} on "
+                     f"n={n} inducing points, {nb} data points, batch {batch}",
+                     {"n": n, "nb": nb, "batch": batch, "shared_params": shared, "nat_vec": nat_vec.tolist(),
+                      "nat_mat": nat_mat.tolist(), "k": kk.tolist(), "gm": gm.tolist(), "gv": gv.tolist(), "gk": gk.tolist()})
+            continue
         # forward values (CG contract): k^T m, k^T S k
         ref_mean = (kk.transpose(-1, -2) @ m.unsqueeze(-1)).squeeze(-1)
         ref_var = (kk * (S @ kk)).sum(-2)
@@ -1041,15 +1073,21 @@ def ciq(ctx, rng, q):
                      f"{errs} (tol {tol:.1e})", desc)
         # exact Lean evaluation of the REGENERATED forward + backward and of the model (all data points, KL terms
         # included — the expressions `ngd_backward_expec_hasDerivAt` / `_interp_hasDerivAt` are about)
+        grp = []
         for b in range(B):
             sel = (lambda t: t[b]) if batch else (lambda t: t)
-            if shared:
-                break
-            hx = q.ask(f"NGDX {K5.mat(sel(kk).tolist())} {K5.mat([[v] for v in sel(nat_vec).tolist()])} "
-                       f"{K5.mat(sel(nat_mat).tolist())} {K5.mat([[v] for v in sel(gm).tolist()])} "
+            par = (lambda t: t) if shared else sel          # ONE variational distribution for the whole batch
+            hx = q.ask(f"NGDX {K5.mat(sel(kk).tolist())} {K5.mat([[v] for v in par(nat_vec).tolist()])} "
+                       f"{K5.mat(par(nat_mat).tolist())} {K5.mat([[v] for v in sel(gm).tolist()])} "
                        f"{K5.mat([[v] for v in sel(gv).tolist()])} {K5.num(sel(gk).item())}")
-            xwork.append((hx, [sel(im).detach().numpy(), sel(iv).detach().numpy(), sel(g_it).numpy(), sel(g_nv).numpy(),
-                               sel(g_nm).numpy()], cond, desc))
+            if shared:      # forward values and interp_term gradient per element; the parameter gradients are SUMS
+                grp.append(hx)
+                xwork.append((hx, [sel(im).detach().numpy(), sel(iv).detach().numpy(), sel(g_it).numpy()], cond, desc))
+            else:
+                xwork.append((hx, [sel(im).detach().numpy(), sel(iv).detach().numpy(), sel(g_it).numpy(), sel(g_nv).numpy(),
+                                   sel(g_nm).numpy()], cond, desc))
+        if shared:
+            swork.append((grp, g_nv.numpy(), g_nm.numpy(), cond, desc))
         # Lean model: data terms only (one data point, no KL), exact
         for b in range(B):
             sel = (lambda t: t[b]) if batch else (lambda t: t)
@@ -1104,6 +1142,20 @@ def ciq(ctx, rng, q):
                 if float(np.abs(ex - r_).max()) > 1e-8 * cond * sc:
                     ctx.fail(f"_NgdInterpTerms.{nm}", f"_NgdInterpTerms: {nm.split('/')[-1]} = {r_.reshape(-1).tolist()}, the exact "
                              f"value of the proved expression (all data points, KL terms included) is {ex.reshape(-1).tolist()}", desc)
+                    break
+        for grp, g_nv, g_nm, cond, desc in swork:       # broadcast parameters: autograd sums the batch
+            if not all(q.ok(h) for h in grp) or any(q[h].strip() == "singular" for h in grp):
+                continue
+            parts = [_split_reply(q[h])[1] for h in grp]
+            ev = sum(np.array(C.fmat_to_float(K5.parse_rat(p[3]))).reshape(g_nv.shape) for p in parts)
+            em = sum(np.array(C.fmat_to_float(K5.parse_rat(p[4]))).reshape(g_nm.shape) for p in parts)
+            ctx.count("ciq_exact_broadcast_cases")
+            for nm, r_, ex in (("expec_vec", g_nv, ev), ("expec_mat", g_nm, em)):
+                sc = max(1.0, float(np.abs(ex).max()))
+                if float(np.abs(ex - r_).max()) > 1e-8 * cond * sc * len(grp):
+                    ctx.fail(f"_NgdInterpTerms.backward/exact/{nm}/broadcast-parameters",
+                             f"_NgdInterpTerms with ONE variational distribution for a batch of data: {nm} = {r_.reshape(-1).tolist()}, "
+                             f"the sum over the batch of the exact proved expression is {ex.reshape(-1).tolist()}", desc)
                     break
     return finish
 
